@@ -57,6 +57,7 @@ type Op struct {
 	ViaRpc     bool         `json:"viarpc,omitempty"`     // root upsert delivered as the input of rpc zzin whose handler upserts it into the store
 	Tree       *model.Tree  `json:"tree,omitempty"`       // payload at a root/container/list-entry entry point
 	List       *model.ListT `json:"list,omitempty"`       // payload at a list entry point
+	Leaf       string       `json:"leaf,omitempty"`       // the edit is rooted at this leaf of the node At addresses (a leaf selection); the payload is At-level and holds that leaf
 	Paths      []model.Path `json:"paths,omitempty"`      // batch-delete: containers, none inside another; all are selected first (Find), then deleted in this order through those selections
 	Keys       [][]string   `json:"keys,omitempty"`       // sweep: At is a list; its entries are walked once (First/Next), then the ones with these keys are deleted, in this order, through the selections the walk produced
 }
@@ -70,6 +71,9 @@ func (o Op) String() string {
 		s += "-via-rpc-input"
 	}
 	s += " @" + o.At.String()
+	if o.Leaf != "" {
+		s += "/" + o.Leaf + " (leaf selection)"
+	}
 	if len(o.Keys) > 0 {
 		s += fmt.Sprintf(" keys%v", o.Keys)
 	}
@@ -263,6 +267,13 @@ func Exec(env *Env, st store.Store, o Op, ss *simnode.Session, hook ReaderHook) 
 	if sel == nil {
 		res.NotFound = true
 		return
+	}
+	if o.Leaf != "" {
+		if sel, err = sel.Find(o.Leaf); err != nil || sel == nil {
+			res.Err = fmt.Errorf("find leaf %s of %s: %v", o.Leaf, o.At, err)
+			res.NotFound = err == nil
+			return
+		}
 	}
 	if o.Kind == "delete" {
 		opStart(ss)
